@@ -438,14 +438,24 @@ Qed.
 Theorem after_noop_modifier : forall fresh m c c' evs,
   wf_contact E c -> mod_wf E m ->
   apply E fresh m c = (c', evs, false) ->
-  erase c' = erase c /\ (Consistent E c -> Consistent E c') /\ wf_contact E c'.
+  erase c' = erase c /\ (Consistent E c -> Consistent E c') /\ wf_contact E c'
+  /\ (NoStaticIfInactive E c -> NoStaticIfInactive E c').
 Proof.
   intros fresh m c c' evs Hwf Hm H. unfold apply in H.
   destruct (apply_inner E fresh m c) as [[c1 evs1] b1] eqn:HI.
   destruct (apply_inner_spec E fresh m c c1 evs1 b1 Hwf Hm HI) as [_ [_ [H3 [_ Hwf1]]]].
   destruct b1; [destruct (reevaluate_groups E c1); inversion H|]. inversion H; subst c' evs.
-  specialize (H3 eq_refl). split; [exact H3|]. split; [|exact Hwf1].
-  intros HC g Hall Hu. rewrite (erase_groups _ _ H3), (erase_qualifies _ _ g H3). apply HC; assumption.
+  specialize (H3 eq_refl). split; [exact H3|]. split; [|split; [exact Hwf1|]].
+  - intros HC g Hall Hu. rewrite (erase_groups _ _ H3), (erase_qualifies _ _ g H3). apply HC; assumption.
+  - intros HN Hact g Hin. rewrite (erase_groups _ _ H3) in Hin. apply HN; [|exact Hin].
+    assert (Hs := erase_same _ _ H3). unfold same_contact in Hs. unfold is_active in *.
+    destruct Hs as [_ [_ [Hs _]]]. rewrite <- Hs. exact Hact.
+Qed.
+
+(* any contact visibly equal to one with right membership has right membership (for any evaluator) *)
+Lemma consistent_erase : forall c c', erase c' = erase c -> Consistent E c -> Consistent E c'.
+Proof.
+  intros c c' H3 HC g Hall Hu. rewrite (erase_groups _ _ H3), (erase_qualifies _ _ g H3). apply HC; assumption.
 Qed.
 
 End AfterModifier.
@@ -489,4 +499,17 @@ Proof.
   split; [exact (proj1 ex_wf)|]. split; [exact I|]. split; [reflexivity|].
   intro HC. specialize (HC 1 (or_intror (or_introl eq_refl)) eq_refl). cbn in HC.
   destruct HC as [HC _]. specialize (HC (or_intror (or_introl eq_refl))). discriminate.
+Qed.
+
+(* the static twin of F6b: a contact stored as blocked and still listed in a static group stays in it after a modifier
+   that changes nothing (the clause of the statement speaks of a contact that BECOMES non-active; listed as known
+   finding next to F6b) *)
+Theorem after_noop_modifier_static_refuted :
+  exists E fresh m c c' evs,
+    wf_contact E c /\ mod_wf E m /\ apply E fresh m c = (c', evs, false) /\ ~ NoStaticIfInactive E c'.
+Proof.
+  exists ex_env, 7, (MStatus Blocked), (with_status (ex_contact [106] [0]) Blocked), (with_status (ex_contact [106] [0]) Blocked), [].
+  split; [split; [repeat constructor; cbn; intuition discriminate | intros g [H|[]]; subst; cbn; tauto]|].
+  split; [exact I|]. split; [reflexivity|].
+  intro HN. specialize (HN eq_refl 0 (or_introl eq_refl)). discriminate.
 Qed.
